@@ -343,7 +343,7 @@ def c13(ck):
                          bulk_project=lambda outs: screens([o if " " in o else o + " ." for o in outs]),
                          nontrivial=lambda c, o: c != "-"))
     # sessions with handler output and Cli::write at arbitrary points: framing of every Enter / write call
-    m = 6000 if thorough else 1200
+    m = 6000 if thorough else 3000
     ses = [gen.rand_session_w1(rng, 25) for _ in range(m)]
 
     def oracle_view(case, io):
@@ -403,7 +403,7 @@ def c05(ck):
                          nontrivial=lambda c, o: ":N:" in o or "ml" in c or "rm" in c))
     ck.cov["families"]["editor-ops"]["exhaustive_part"] = "all op sequences of length <= %d over 7 ops for cap 0..8 (%d cases)" % (depth, ex_n)
     # through the whole Cli
-    m = 6000 if thorough else 1200
+    m = 6000 if thorough else 3000
     ses = [gen.rand_session(rng, 30, api=False) for _ in range(m)]
     ck.run_family(Family("session-line", "ses", ses, shrink=core.shrink_ops_line(4), decisive=False,
                          project=lambda o: [(s["text"], s["cur"]) for s in (parse_steps(o) or [])] or o,
@@ -463,7 +463,7 @@ def c10(ck):
     ck.run_family(Family("history-ops", "hist", cases, oracle=oracle, project=hist_project_impl, shrink=core.shrink_ops_line(1),
                          nontrivial=lambda c, o: "o" in c.split(" ", 1)[-1].split(";") and "p:" in c))
     ck.cov["families"]["history-ops"]["exhaustive_part"] = "all op sequences of length <= %d over %s for hcap 0..10 (%d cases)" % (depth, alpha, ex_n)
-    m = 6000 if thorough else 1200
+    m = 6000 if thorough else 3000
     ses = [gen.rand_session(rng, 40, api=False) for _ in range(m)]
     # lines with blanks at the ends, blank-only lines, a line that is a suffix / prefix of the previous one, at boundary history sizes
     for _ in range(m // 3):
@@ -620,7 +620,7 @@ def width1_session(rng, nops):
 def c06(ck):
     rng = ck.rng
     thorough = ck.tier == "thorough"
-    n = 8000 if thorough else 1500
+    n = 8000 if thorough else 4000
     corpus = [l.strip() for l in open(os.path.join(core.ROOT, "corpus", "C06", "sessions.txt")) if l.strip() and not l.startswith("#")]
     ses = corpus + [gen.rand_session_w1(rng, rng.choice([10, 25, 50])) for _ in range(n)]
     # recall scenarios: lines entered, then a line retyped (equal to / prefix of / different from an entry), cursor moved inside, Up / Down, more keys
@@ -712,7 +712,7 @@ def c06(ck):
 def c15(ck):
     rng = ck.rng
     thorough = ck.tier == "thorough"
-    n = 8000 if thorough else 1500
+    n = 8000 if thorough else 4000
     ses = [gen.rand_session(rng, rng.choice([10, 30])) for _ in range(n)]
 
     def oracle(case, io):
@@ -779,7 +779,7 @@ def c14(ck):
             if nm:
                 decl_corpus.append(dl(k, "help " + declgen.q(nm[-1])))
                 decl_corpus.append(dl(k, declgen.rand_decl_line(rng, s_)))
-    base = list(FAULT_CORPUS) + decl_corpus + [gen.rand_session(rng, 12) for _ in range(150 if thorough else 30)]
+    base = list(FAULT_CORPUS) + decl_corpus + [gen.rand_session(rng, 12) for _ in range(150 if thorough else 80)]
     base_out = core.run_engine(hb, "ses", base)
     # the model's own fault-free run: fault positions are sink-call numbers, so model and implementation can only be compared under
     # a fault where they make the same sink calls in that step (a re-chunked but equivalent implementation is then checked by the oracle alone)
@@ -858,7 +858,7 @@ def c14(ck):
 def c01(ck):
     rng = ck.rng
     thorough = ck.tier == "thorough"
-    n = 10000 if thorough else 2000
+    n = 10000 if thorough else 5000
     ses = [gen.rand_session(rng, rng.choice([15, 40]), api=False) for _ in range(n)]
 
     def proj(o):
@@ -891,7 +891,7 @@ def c01(ck):
 def c03(ck):
     rng = ck.rng
     thorough = ck.tier == "thorough"
-    n = 12000 if thorough else 2500
+    n = 12000 if thorough else 5000
     ses = []
     for i in range(n):
         cap = rng.randrange(0, 65) if i % 3 else rng.choice([0, 1, 2, 3, 4])
@@ -1057,7 +1057,7 @@ def c11(ck):
     ck.run_family(Family("derived-tab", "ses", dcases, oracle=oracle_d, shrink=None,
                          project=lambda o: [(s_["text"], s_["cur"]) for s_ in (parse_steps(o) or [])] or o,
                          nontrivial=lambda c, o: True))
-    m = 6000 if thorough else 1200
+    m = 6000 if thorough else 3000
     ses = [gen.rand_session(rng, 30, api=False) for _ in range(m)]
     ck.run_family(Family("session-tab", "ses", ses, shrink=core.shrink_ops_line(4), decisive=False,
                          project=lambda o: [(s_["text"], s_["cur"]) for s_ in (parse_steps(o) or [])] or o,
@@ -1074,7 +1074,7 @@ def ensure_decls(ck):
     import random, sys
     sys.path.insert(0, os.path.join(core.ROOT, "gen"))
     import declgen
-    n = 40 if ck.tier == "thorough" else 12
+    n = 40 if ck.tier == "thorough" else 20
     sets = declgen.generate(random.Random(ck.seed * 7919 + 17), n)
     declgen.write_all(sets, os.path.join(core.HARNESS_DIR, "src", "gen_decls.rs"), os.path.join(core.BUILD, "decls.txt"))
     os.environ["VERIF_DECLS"] = os.path.join(core.BUILD, "decls.txt")
@@ -1115,7 +1115,7 @@ def c09(ck):
     rng = ck.rng
     thorough = ck.tier == "thorough"
     declgen, sets = ensure_decls(ck)
-    per = 600 if thorough else 160
+    per = 600 if thorough else 400
     cases = []
     for k, s_ in enumerate(sets):
         lines = [declgen.rand_decl_line(rng, s_) for _ in range(per)]
@@ -1182,7 +1182,7 @@ def c12(ck):
                             lines.append(" ".join(declgen.q(x) for x in [nm, oname(v_), oname(f_), sn, "--help"]))
                             lines.append(" ".join(declgen.q(x) for x in ["help", nm, oname(v_), oname(f_), sn]))
                             lines.append(" ".join(declgen.q(x) for x in [nm, oname(f_), oname(v_), "val", sn, "-h"]))
-        for _ in range(40 if thorough else 12):
+        for _ in range(40 if thorough else 30):
             e = rng.choice(declgen.set_enums(s_))
             t = declgen.rand_cmd_tokens(rng, e)
             pos = rng.randrange(1, len(t) + 1)
@@ -1250,7 +1250,7 @@ def c16(ck):
         return ck.finish(trusted=TB_COMMON, rule="build broke")
     ck._bin.update({(f, "debug"): b for f, b in bins.items()})
     ck.cov["feature_sets_built"] = fsets
-    n = 2500 if thorough else 500
+    n = 2500 if thorough else 1200
     ses = [gen.rand_session(rng, rng.choice([15, 35])) for _ in range(n)]
     # sessions with help-shaped lines and Tab / Up / Down at known places
     for line in ["help", "help echo", "echo -h", "echo --help a", "x -vh", "he", "quiet -- -h"]:
